@@ -1,6 +1,38 @@
 """Texts of MANIFEST.json per property."""
 
+COMMON = "Trusted: the harness's mini API server and event loop reproduce what the reconcilers see (list order chosen by the case, work-queue coalescing, status update = status + annotations, followed by a service event); its reference oracles (pool arithmetic, admission, sharing rule) are written from the property text and the user documentation. Kubernetes admission invariants (>=1 port, families consistent with the policy, immutable primary family) are assumed."
+
 TEXT = {
+    "C01": {
+        "level": "Exploration: two engines. (a) generated histories of allocator API calls (Assign/Allocate/AllocateFromPool/additional family/Unassign/SetPools) with arguments derived from generated Services as the controller derives them; (b) generated histories of service/pool/re-sync events driven through the real ServiceReconciler, PoolReconciler, Listener, controller and allocator over an in-memory API server with a harness-owned schedule. Exclusivity is checked pairwise on Allocator.IPs after every call / handler invocation and on the Service statuses at every quiescence.",
+        "design_ref": "DESIGN.md section 2", "note": COMMON,
+        "technique": "stateful property-based testing against a reference model (rapid): pairwise sharing-rule invariant after every step",
+    },
+    "C02": {
+        "level": "Exploration: the same two engines as C01; every newly recorded address set is judged against a specification computed from the generated CRs (one owning pool, buggy addresses, namespace/service-selector admission, families, auto-assign, pinned-before-unpinned, priority, explicit IP / pool requests, pool annotation written with the status); error <=> nothing recorded at the API level.",
+        "design_ref": "DESIGN.md section 3", "note": COMMON + " Two genuine defects are recorded as known findings (known_findings.json) and excluded by signature.",
+        "technique": "stateful property-based testing against a closed-form specification computed from the CRs (rapid)",
+    },
+    "C03": {
+        "level": "Exploration: controller histories with innocent bystanders; at every quiescence each service whose spec was not written since the previous quiescence and whose previous addresses are still admissible (independent predicate over CRs, own spec and co-tenants) must hold the same set (or gain the missing family under PreferDualStack); two forced re-syncs at quiescence must write at most once per service, then not at all.",
+        "design_ref": "DESIGN.md section 4", "note": COMMON,
+        "technique": "stateful property-based testing: frame condition between quiescent states + write counting (rapid)",
+    },
+    "C06": {
+        "level": "Exploration with injected faults: controller histories plus crash points (between events, inside a handler just before / just after the status write), finite sequences of failing status writes, and restarts with a generated service list order, early events and pool-reconcile position; after every restart the recorded-and-admissible addresses must survive, and at every quiescence the allocator memory and counters must equal the statuses for every service that ever existed.",
+        "design_ref": "DESIGN.md section 7", "note": COMMON + " One genuine design-level defect (restart ordering) is a known finding, excluded by signature.",
+        "technique": "stateful property-based testing with fault injection (crash points, failing writes, delivery orders) against a recorded-status model (rapid)",
+    },
+    "C07": {
+        "level": "Exploration: controller histories to quiescence; for every LoadBalancer service left without address an independent search over the CRs and the recorded statuses (explicit IPs, requested pool, pinned then unpinned auto-assign pools, family policy, free-or-shareable addresses of the tiny pools, enumerated exactly) decides whether an admissible assignment exists.",
+        "design_ref": "DESIGN.md section 8", "note": COMMON + " 'Shareable' is read strictly (both Cluster, or both Local with identical selectors) so that the oracle never demands a sharing the implementation may legitimately refuse.",
+        "technique": "stateful property-based testing against an independent admissibility search (rapid)",
+    },
+    "C11": {
+        "level": "Exploration: (a) allocator API histories: after every call the internal bookkeeping maps must be exactly what the surviving assignments of the reference model imply, CountersForPool must equal exact big-integer counts of usable/used addresses (saturating), and every address released by the call must be assignable at once to a probe service; (b) controller histories: at every quiescence memory and counters equal the statuses.",
+        "design_ref": "DESIGN.md section 12", "note": COMMON,
+        "technique": "stateful property-based testing: model-derived bookkeeping differential + exact counting oracle + reuse probes (rapid)",
+    },
     "C08": {
         "level": "Exploration: generated resource sets (pools in every address notation from a small colliding v4/v6 space, nodes with internal IPs, L2/BGP advertisements with names/selectors/aggregation lengths/localprefs/peer lists) are parsed by the real config.For; every accepted configuration is compared with the harness's own netip interval arithmetic and selector evaluation (exact address sets, pairwise disjointness, node IPs, advertisement attachment, aggregate containment, localpref collisions).",
         "design_ref": "DESIGN.md section 9",
@@ -22,16 +54,10 @@ TEXT = {
 }
 
 NOT_APPLICABLE = {
-    "C01": "check not built yet (work in progress; see DESIGN.md for the planned generated-input check)",
-    "C02": "check not built yet (work in progress; see DESIGN.md for the planned generated-input check)",
-    "C03": "check not built yet (work in progress; see DESIGN.md for the planned generated-input check)",
     "C04": "check not built yet (work in progress; see DESIGN.md for the planned generated-input check)",
     "C05": "check not built yet (work in progress; see DESIGN.md for the planned generated-input check)",
-    "C06": "check not built yet (work in progress; see DESIGN.md for the planned generated-input check)",
-    "C07": "check not built yet (work in progress; see DESIGN.md for the planned generated-input check)",
     "C09": "check not built yet (work in progress; see DESIGN.md for the planned generated-input check)",
     "C10": "check not built yet (work in progress; see DESIGN.md for the planned generated-input check)",
-    "C11": "check not built yet (work in progress; see DESIGN.md for the planned generated-input check)",
     "C12": "check not built yet (work in progress; see DESIGN.md for the planned generated-input check)",
     "C13": "check not built yet (work in progress; see DESIGN.md for the planned generated-input check)",
     "C14": "check not built yet (work in progress; see DESIGN.md for the planned generated-input check)",
